@@ -211,6 +211,64 @@ def run(ctx, rep):
             rep.ok("C05.jet", "call(dst=output frame, src=input frame, env)", None)
         else:
             rep.violation("C05.jet", "call:args", "C jet called with (%s)" % ", ".join(show(x) for x in a), ej.where())
+    # the jet's verdict is consumed: failure (false) returns Err(JetFailed) without committing the output, success
+    # commits the output frame (update_active_write_frame) — polarity included
+    if len(ind) == 1:
+        t = ej.blocks[ind[0]]["t"]
+        dest = t.get("dest")
+        sw = None
+        for b in ej.rpo():
+            tt = ej.blocks[b]["t"]
+            if tt["k"] != "switch":
+                continue
+            d = Tj.operand(tt["discr"])
+            nots = 0
+            while isinstance(d, tuple) and d and d[0] == "un" and d[1] == "Not":
+                nots += 1
+                d = d[2]
+            if isinstance(d, tuple) and d and d[0] == "call" and "indirect" in repr(d[:3]):
+                sw = (b, tt, nots)
+            elif dest and isinstance(d, tuple) and d[:1] == ("local",) and d[1] == dest[0]:
+                sw = (b, tt, nots)
+        if sw is None:
+            # fall back: the switch whose discriminant derives from the call's destination local
+            for b in ej.rpo():
+                tt = ej.blocks[b]["t"]
+                if tt["k"] == "switch" and ej.dominates(ind[0], b) and b != ind[0]:
+                    d = tt["discr"]
+                    nots = 0
+                    cur = d
+                    # follow `_x = Not(_y)` definitions
+                    if cur.get("k") in ("copy", "move"):
+                        for (bb, i, kind, pl) in ej.defs().get(cur["p"][0], []):
+                            if kind == "assign" and pl[2].get("k") == "un" and pl[2].get("op") == "Not":
+                                nots = 1
+                    sw = (b, tt, nots)
+                    break
+        if sw is None:
+            rep.violation("C05.jet", "verdict", "the boolean returned by the C jet is not branched on: a failing jet would be treated as success", ej.where())
+        else:
+            b, tt, nots = sw
+            zero = [tg for v, tg in tt["targets"] if v == "0"]
+            zero = zero[0] if zero else None
+            other = tt["otherwise"] if zero is not None else None
+            # discriminant 0 <=> (success if nots even else !success) is false
+            fail_target, ok_target = (zero, other) if nots % 2 == 0 else (other, zero)
+            def region(x):
+                return ej.dominated_by(x) if x is not None else set()
+            commits_ok = any(cs.name == "update_active_write_frame" for cs in ej.calls(region(ok_target)))
+            commits_fail = any(cs.name == "update_active_write_frame" for cs in ej.calls(region(fail_target)))
+            def builds(reg, variant):
+                for bb in reg:
+                    for st in ej.blocks[bb]["s"]:
+                        if st[0] == "=" and st[2].get("k") == "agg" and st[2].get("variant") == variant and "Result" in str(st[2].get("adt")):
+                            return True
+                return False
+            if commits_ok and not commits_fail and builds(region(fail_target), "Err") and builds(region(ok_target), "Ok"):
+                rep.ok("C05.jet", "verdict: false -> Err(JetFailed), true -> commit the output frame and Ok", None)
+            else:
+                rep.violation("C05.jet", "verdict", "the C jet's verdict is mishandled: on success commit=%s Ok=%s, on failure commit=%s Err=%s"
+                              % (commits_ok, builds(region(ok_target), "Ok"), commits_fail, builds(region(fail_target), "Err")), ej.where())
     # both local frame builders size their buffer with uword_width of the same width they give the frame
     for helper in ("get_input_frame", "get_output_frame"):
         h = F.fn(ej.path + "::" + helper)
